@@ -22,3 +22,11 @@ Definition check_timed (ops : list (mode * qstate * option qstate)) (outs : list
 (* the receive that follows a crashed sender: `torn` unfinished messages, then the state q *)
 Definition check_recv_all (m : mode) (torn : nat) (q : qstate) (during : option qstate) (out : outcome) (calls : list call) : bool :=
   let '(o, cs, f) := recv_all m torn q during false in out_eqb o out && leqb call_eqb cs calls && negb f.
+
+(* sequences in which some timed waits are interrupted by a signal *)
+Definition outs_eqb (a b : outcome_s) : bool :=
+  match a, b with SOut x, SOut y => out_eqb x y | SInterrupted, SInterrupted => true | _, _ => false end.
+Definition calls_eqb (a b : call_s) : bool :=
+  match a, b with SCall x, SCall y => call_eqb x y | SPollIntr x, SPollIntr y => x =? y | _, _ => false end.
+Definition check_timed_sig (ops : list (mode * qstate * option qstate * bool)) (outs : list outcome_s) (calls : list call_s) : bool :=
+  let '(os, cs, f) := run_sig false ops in leqb outs_eqb os outs && leqb calls_eqb cs calls && negb f.
